@@ -244,7 +244,7 @@ def build_ocaml():
 # ---------------------------------------------------------------- arena engine
 ARENA_TIERS = {
     # shards per mode, histories per shard, max ops
-    "quick": (8, 120, 60),
+    "quick": (8, 700, 60),
     "thorough": (16, 1500, 120),
 }
 
@@ -291,7 +291,7 @@ def run_shard(mode, seed, count, maxops, first, outdir, tag):
 
 
 VEC_TIERS = {
-    "quick": (8, 400, 40),
+    "quick": (8, 1500, 40),
     "thorough": (16, 6000, 60),
 }
 VEC_MISMATCH_PROPS = {
@@ -309,7 +309,7 @@ VEC_MISMATCH_PROPS = {
 VEC_PROPS = ["C13", "C15", "C16", "C19"]
 
 STR_TIERS = {
-    "quick": (4, 300, 40),
+    "quick": (8, 800, 40),
     "thorough": (16, 4000, 60),
 }
 STR_MISMATCH_PROPS = {
@@ -344,7 +344,7 @@ def run_str_shard(mode, seed, count, maxops, first, outdir, tag):
 
 
 BOX_TIERS = {
-    "quick": (4, 300, 30),
+    "quick": (8, 700, 30),
     "thorough": (16, 4000, 40),
 }
 BOX_MISMATCH_PROPS = {
